@@ -89,6 +89,7 @@ class TlcResult:
         self.emitted = 0
         self.coverage_zero = []
         self.last_state = 0
+        self.bad = None
         self.wall = 0.0
 
     def ok(self):
@@ -142,6 +143,8 @@ def run_tlc(ctx, workdir, module, cfg, workers=None, timeout=900, extra=(), sink
         m = _re_depth.search(line)
         if m:
             res.depth = int(m.group(1))
+        if line.startswith("/\\ bad = ") and '"none"' not in line:
+            res.bad = line[len("/\\ bad = "):].strip().strip('"')
         if line.startswith("State "):
             m = _re_stateno.match(line)
             if m:
@@ -154,8 +157,8 @@ def run_tlc(ctx, workdir, module, cfg, workers=None, timeout=900, extra=(), sink
             res.violated = m.group(2) or "temporal"
         if "Deadlock reached" in line:
             res.violated = "deadlock"
-        if "Postcondition" in line and ("violated" in line or "is false" in line):
-            res.violated = "postcondition"
+        if "Postcondition" in line and ("violated" in line or "is false" in line) and res.violated is None:
+            res.violated = "postcondition"   # (an invariant violation reported earlier is the more specific verdict)
         if line.startswith("Error:") and res.violated is None and "violated" not in line and "Postcondition" not in line:
             if res.error is None:
                 res.error = line.strip()
@@ -215,7 +218,7 @@ def validate_traces(ctx, specsubdirs, module, cfg, lines, begin_marker='"ev":"be
             why = "no model step explains the event"
         else:
             idx = res.last_state - 2     # the step into the violating state
-            why = "rule %s violated" % res.violated
+            why = "rule %s violated%s" % (res.violated, (": " + res.bad) if res.bad else "")
         if idx < 0 or idx >= len(lines):
             raise Infra("trace validation: cannot locate failing event (depth %d, state %d, %d lines)" % (res.depth, res.last_state, len(lines)))
         a = idx
